@@ -118,7 +118,7 @@ func Load(opts LoadOpts) (*Loaded, error) {
 		w.InitPkgs[path] = true
 	}
 	for path := range l.Pkgs {
-		if strings.HasPrefix(path, RepoModule) {
+		if strings.HasPrefix(path, RepoModule) || strings.HasPrefix(path, "github.com/jsightapi/jsight-schema-core") {
 			w.InitPkgs[path] = true
 		}
 	}
